@@ -446,10 +446,15 @@ func (rt *c04Runtime) parse(c *c04Case) (*ast.Module, error) {
 	return m, nil
 }
 
-// replicate of the locals createCompiledRouteHandler injects
+// replicate of the locals createCompiledRouteHandler injects (kept in step with cmd/glyph/handlers.go: the query
+// string is split by the interpreter's parser, bodies are read for POST/PUT/PATCH/DELETE, a null body is no object,
+// input-type defaults are applied before validation, and "no JSON object" is validated against the input type too)
 func c04VMLocals(v *vm.VM, route *ast.Route, req *http.Request) error {
-	rawQuery := map[string][]string(req.URL.Query())
+	rawQuery, rawErr := interpreter.ExtractRawQueryParams("?" + req.URL.RawQuery)
 	qp, err := interpreter.ProcessQueryParams(rawQuery, route.QueryParams)
+	if rawErr != nil {
+		err = rawErr
+	}
 	if err != nil {
 		return err
 	}
@@ -471,16 +476,24 @@ func c04VMLocals(v *vm.VM, route *ast.Route, req *http.Request) error {
 		}
 	}
 	v.SetLocal("input", vm.NullValue{})
-	if req.Method == "POST" || req.Method == "PUT" || req.Method == "PATCH" {
+	inputIsObject := false
+	if req.Method == "POST" || req.Method == "PUT" || req.Method == "PATCH" || req.Method == "DELETE" {
 		ct := req.Header.Get("Content-Type")
 		if (ct == "" || strings.HasPrefix(ct, "application/json")) && req.Body != nil {
 			var bodyMap map[string]interface{}
-			if err := json.NewDecoder(io.LimitReader(req.Body, 10*1024*1024)).Decode(&bodyMap); err == nil {
+			if err := json.NewDecoder(io.LimitReader(req.Body, 10*1024*1024)).Decode(&bodyMap); err == nil && bodyMap != nil {
+				applyCompiledInputDefaults(route, bodyMap)
 				if err := validateCompiledInput(route, bodyMap); err != nil {
 					return err
 				}
 				v.SetLocal("input", interfaceToValue(bodyMap))
+				inputIsObject = true
 			}
+		}
+	}
+	if !inputIsObject {
+		if err := validateCompiledInput(route, nil); err != nil {
+			return err
 		}
 	}
 	ho := make(map[string]vm.Value)
